@@ -45,8 +45,37 @@ KINDS = [
     ("sgopher-menu", "sgopher", b"/gm"), ("tal-doc", "gopherp", b"/t.html.tal"), ("html-doc", "http", b"/h.html"), ("url-redirect", "gopher", b"URL:http://example.com/"),
     ("zip-member-gemini", "gemini", b"/z.zip/sub/g.txt"), ("zip-member-spartan", "spartan", b"/z.zip/f.txt"), ("zip-member-http", "http", b"/z.zip/sub/g.txt"),
     ("zip-member-plus", "gopherp", b"/z.zip/f.txt"), ("mbox-message-gemini", "gemini", b"/m.mbox|/MBOX-MESSAGE/1"), ("big-spartan", "spartan", b"/big.txt"),
+    # documents of many copy blocks (a failure after tens of thousands of bytes have gone out)
+    ("huge-gopher", "gopher", b"/huge.bin"), ("huge-http", "http", b"/huge.bin"), ("huge-gopherp", "gopherp", b"/huge.bin"), ("huge-zip-member", "gopher", b"/hz.zip/huge.bin"),
+    # names that are not UTF-8
+    ("latin1-gopher", "gopher", b"/caf\xe9.txt"), ("latin1-http", "http", b"/caf\xe9.txt"), ("latin1-gemini", "gemini", b"/caf\xe9.txt"), ("latin1-error", "gopher", b"/nope\xe9"),
+    ("latin1-dir", "gopher", b"/d\xe9r"), ("latin1-spartan-404", "spartan", b"/nope\xe9"),
+    # the server itself fails to read the document (I/O error), and THEN the client goes away during the error reply
+    ("ioerr-gopher", "gopher", b"/ioerr.txt"), ("ioerr-gopherp", "gopherp", b"/ioerr.txt"), ("ioerr-http", "http", b"/ioerr.txt"), ("ioerr-wap", "wap", b"/ioerr.txt"),
+    ("ioerr-gemini", "gemini", b"/ioerr.txt"), ("ioerr-spartan", "spartan", b"/ioerr.txt"),
     ("gz-doc", "http", b"/c.txt.gz"), ("script", "gopher", b"/s.sh"), ("pyg", "gemini", b"/p.pyg"), ("icon", "http", b"/PYGOPHERD-HTTPPROTO-ICONS/text.gif"),
 ]
+
+
+_io_patched = False
+
+
+def _patch_ioerr():
+    """Seam: reading /ioerr.txt fails with EIO (a medium error) after the file has been found."""
+    global _io_patched
+    if _io_patched:
+        return
+    from pygopherd.handlers.base import VFS_Real
+
+    o_open = VFS_Real.open
+
+    def open_(self, selector, *a, **k):
+        if selector == "/ioerr.txt" and type(self) is VFS_Real:
+            raise OSError(errno.EIO, "Input/output error (injected)")
+        return o_open(self, selector, *a, **k)
+
+    VFS_Real.open = open_
+    _io_patched = True
 
 
 def _fds():
@@ -67,6 +96,12 @@ def _world():
     if _w is None:
         spec = worlds.standard_spec(full=True)
         spec["big.txt"] = (b"0123456789abcdef" * 64 + b"\n") * 9  # > 2 copy blocks
+        spec["huge.bin"] = bytes(range(256)) * 800  # 200 KiB
+        spec["hz.zip"] = worlds.make_zip([("huge.bin", bytes(range(256)) * 600), ("small.txt", b"s\n")])
+        spec[b"caf\xe9.txt"] = b"latin-1 name\n" * 400
+        spec[b"d\xe9r"] = {b"in\xe9.txt": b"x\n", b"plain.txt": b"y\n"}
+        spec["ioerr.txt"] = b"never readable\n" * 10
+        _patch_ioerr()
         _w = rig.World(spec, handlers="full", cachetime=0, tag="c20")
         for _, proto, sel in KINDS:  # warm-up: lazies, imports, cache files
             _w.serve(*rig.request(proto, sel))
@@ -102,7 +137,7 @@ def _probe(kind, proto, sel, k, errname, once=False):
         if not any(c == own and a == rig.CLIENT_ADDR[0] for a, c in classes):
             bad.append(("not-logged", "no log record with the client address and class %s; records: %r" % (own, exc_records[:4])))
         is_error_kind = kind.endswith(("-error", "-404"))
-        others = [c for a, c in classes if c != own and not (c == "FileNotFound" and is_error_kind)]
+        others = [c for a, c in classes if c != own and not (c == "FileNotFound" and is_error_kind) and not (c == "OSError" and kind.startswith("ioerr-"))]
         if others:
             bad.append(("other-class", "failure logged as %r instead of %s: %r" % (sorted(set(others)), own, exc_records[:4])))
     leaked = {fd: p for fd, p in after.items() if fd not in before}
@@ -117,7 +152,7 @@ def _shard(shard, seed, tier):
         w = _world()
         data, tls = rig.request(proto, sel)
         clean = w.serve(data, tls)
-        if clean.internal_error:
+        if clean.internal_error and not (kind.startswith("ioerr-") and clean.escaped is None):
             raise core.HarnessError("clean run of %s failed: %s" % (kind, clean.describe_error()))
         W = clean.nwrites if hasattr(clean, "nwrites") else len(clean.writes)
         part.sample({"kind": kind, "request": data, "writes_in_clean_run": W}, limit=2)
